@@ -61,6 +61,11 @@ func c11Content(g *Gen) string {
 	}
 	eol := Pick(g, []string{"\n", "\n", "\r\n"})
 	var sb strings.Builder
+	if g.Chance(1, 16) {
+		// files saved by some editors start with a byte order mark (or other invisible bytes): whatever the scanner
+		// does with the first line, retrieval by its index must do the same
+		sb.WriteString(Pick(g, []string{"\xef\xbb\xbf", "\xef\xbb\xbf", "\xff\xfe", "\xfe\xff", "\xef\xbb", "\ufeff\ufeff", "\x00", "\xe2\x80\x8b"}))
+	}
 	for i := 0; i < n; i++ {
 		l := strings.NewReplacer("\n", "", "\r", "").Replace(c11Line(g))
 		sb.WriteString(l)
